@@ -75,7 +75,10 @@ class ConcStdTime:
     def time(self) -> float: return self._read("time")
     def perf_counter(self) -> float: return self._read("perf_counter")
     def monotonic(self) -> float: return self._read("monotonic")
-    def sleep(self, secs: float) -> None: self.sleeps.append((self.owner(), secs))
+    def sleep(self, secs: float) -> None:
+        self.sleeps.append((self.owner(), secs))
+        if len(self.sleeps) > 400:
+            raise RuntimeError(f"runaway: {len(self.sleeps)} stdlib sleeps in one case")
 
 
 # ------------------------------------------------------------------------------------------------
@@ -211,7 +214,7 @@ def do_op(ctl, fake: ConcStdTime, owner, op) -> str:
             n0 = len(fake.sleeps)
             ctl.sleep(float(F(op[1])))
             mine = [s for o, s in fake.sleeps[n0:] if o == owner]
-            return show_frac(F(mine[0])) if mine else "none"
+            return "+".join(show_frac(F(x)) for x in mine) if mine else "none"
         if kind == "get_scale":
             return show_frac(F(ctl.get_time_scale()))
         if kind == "is_paused":
